@@ -4,6 +4,7 @@ import (
 	"go/ast"
 	"go/token"
 	"go/types"
+	"strings"
 
 	"engcheck/core"
 )
@@ -22,6 +23,7 @@ func init() {
 		c19LoopStop(c)
 		c19Pairing(c)
 		c19WhoClears(c)
+		c19RuntimeTimerOps(c)
 		timerNilSafe(c, "C19.4")
 	})
 }
@@ -350,7 +352,7 @@ func c19LoopStop(c *core.Ctx) {
 func timerHolder(info *types.Info, e ast.Expr) string {
 	e = ast.Unparen(e)
 	if ce, ok := e.(*ast.CallExpr); ok {
-		if se, ok := ce.Fun.(*ast.SelectorExpr); ok && (se.Sel.Name == "Load" || se.Sel.Name == "Store") {
+		if se, ok := ce.Fun.(*ast.SelectorExpr); ok && (se.Sel.Name == "Load" || se.Sel.Name == "Store" || se.Sel.Name == "Swap") {
 			e = se.X
 		}
 	}
@@ -596,4 +598,33 @@ func c19WhoClears(c *core.Ctx) {
 		}
 	}
 	c.Need(R, "timer cancellation sites in engine", n, 8)
+}
+
+// c19RuntimeTimerOps — C19.1b: who may operate the runtime timer.
+func c19RuntimeTimerOps(c *core.Ctx) {
+	const R = "C19.1b"
+	c.Rule(R, "WHO(runtime timer ops): timer.Stop() is called only by Timer.Stop, Timer.Refresh and the Unref cleanup; timer.Reset only by Timer.Refresh and the interval goroutine's tick arm; the waiting goroutines themselves never stop the shared runtime timer (a deferred Stop in a worker cancels the re-arm done by a concurrent Refresh)")
+	allowedStop := map[string]bool{"utils.(*Timer).Stop": true, "utils.(*Timer).Refresh": true}
+	allowedReset := map[string]bool{"utils.(*Timer).Refresh": true, "utils.SetInterval$fn": true}
+	n := 0
+	for _, u := range c.P.Units {
+		if u.Pkg != c.P.Pkgs["utils"] {
+			continue
+		}
+		for _, cl := range u.Calls() {
+			if cl.Recv == nil || fieldOf(u.Info(), cl.Recv) != "Timer.timer" {
+				continue
+			}
+			switch cl.Name {
+			case "Stop":
+				n++
+				ok := allowedStop[u.Key] || strings.HasPrefix(u.Key, "utils.(*Timer).Unref")
+				c.Check(R, keyf("%s/timer.Stop()", u.Key), cl.Pos(), ok, "only the cancel/refresh API stops the runtime timer")
+			case "Reset":
+				n++
+				c.Check(R, keyf("%s/timer.Reset()", u.Key), cl.Pos(), allowedReset[u.Key], "only Refresh and the interval tick re-arm the runtime timer")
+			}
+		}
+	}
+	c.Need(R, "runtime timer Stop/Reset sites", n, 4)
 }
